@@ -186,67 +186,112 @@ def option_effect(repo: Repo, ev, steps: list) -> tuple[str, list]:
     return _canon_all(_deep(out)), list(I.notes)
 
 
-def run_same_arguments(repo: Repo, res: Result) -> None:
-    """'A should (not) import B' and 'B should (not) be imported by A' ask their questions with the same arguments: written as
-    functions of the named importers X and importees Y (import rule: subjects = X, objects = Y; its dual: objects = X, subjects =
-    Y), the i-th argument of the question is the same term.  Decided where the two terms differ only in *constant options* of a
-    call of one function (a flag passed when the rule subjects are converted but not for the rule objects, ...): the callee is
-    interpreted under both option sets; the law is broken when the value that reaches the question differs."""
-    from .absint import roots_of, show_term, term_of
+def _judged_per_key(repo: Repo, verb: str, exc: bool, imp: bool, kind: str) -> bool:
+    """Is the answer of the `kind` question judged in *absent* mode at this point (every key - every converted module of the
+    subject side paired with the other side - has to fulfil the requirement on its own)?  Only there is a different set of
+    converted modules positive evidence: in present mode the realised pairs of a module's sub modules are found through the
+    module itself, so dropping redundant matches can be harmless."""
+    return any(not b.empty and b.source == kind and b.mode == "absent" for b in demand_run(repo, Scenario(verb, exc, imp)).values())
+
+
+def _question(run, kind: str):
+    return next((q for q in run.queries if (q.name == EXPLICIT_QUERY) == (kind == "explicit") and c01._sat(q.guard)), None)
+
+
+def compare_question_arguments(repo: Repo, res: Result, rule: str, kind: str, run1, run2, m1: dict, m2: dict, said1: str, said2: str, law: str, seen: set, roles=(0, 1)) -> int:
+    """Compares the arguments of the `kind` question of two evaluated rules, written as functions of the names in m1 / m2.
+    Decided where the two terms differ only in *constant options* of a call of one function (a flag passed for one conversion but
+    not for the other, a flag fed from the configuration): the callee is interpreted under both option sets; the law is broken
+    when the value that reaches the question differs.  Terms that differ in any other way give no verdict.  Returns the number of
+    argument pairs compared."""
+    from .absint import show_term, term_of
     from .tables import bound_args
 
+    q1, q2 = _question(run1, kind), _question(run2, kind)
+    if q1 is None or q2 is None:
+        return 0
+    a1, a2 = bound_args(repo, q1), bound_args(repo, q2)
+    if len(a1) < 2 or len(a2) < 2:
+        return 0
+    for i, role in ((0, "importers"), (1, "importees")):
+        if i not in roles:
+            continue
+        t1, t2 = term_of(a1[i]), term_of(a2[i])
+        pairs: list = []
+        if _ren(t1, m1) == _ren(t2, m2) or not _option_diffs(t1, t2, m1, m2, pairs) or not pairs:
+            continue
+        for c1, c2 in pairs:
+            key = (rule, _ren(c1, m1), _ren(c2, m2))
+            if key in seen:
+                continue
+            seen.add(key)
+            e1 = next((e for e in run1.interp.events if e.kind == "call" and e.result is not None and e.callee is not None and term_of(e.result) == c1), None)
+            e2 = next((e for e in run2.interp.events if e.kind == "call" and e.result is not None and e.callee is not None and term_of(e.result) == c2), None)
+            if e1 is None or e2 is None or e1.callee.fq != e2.callee.fq:
+                continue
+            steps = _steps_to(t1, c1)
+            if steps != _steps_to(t2, c2):
+                continue
+            v1, n1 = option_effect(repo, e1, steps or [])
+            v2, n2 = option_effect(repo, e2, steps or [])
+            ev = e1 if len(c1) >= len(c2) else e2  # the call that carries the extra option
+            cons = f"{ev.fi.relpath}::{ev.fi.qualname}::{e1.callee.name}(...) options [{role} @ {kind} question, {said1} / {said2}]"
+            if v1 == v2:
+                res.add(rule, cons, True, f"`{show_term(c1)[:90]}` / `{show_term(c2)[:90]}`: the differing constant option does not change the value that reaches the question", where(ev.fi, ev.node), kind="flow")
+            elif n1 or n2:
+                res.undecide(rule, cons, f"the {role} of the {kind} question are `{show_term(c1)[:100]}` for {said1} but `{show_term(c2)[:100]}` for {said2}, and {e1.callee.qualname} is not fully modelled ({'; '.join((n1 or n2)[:2])})", where(ev.fi, ev.node))
+            else:
+                res.add(
+                    rule, cons, False,
+                    f"the {role} of the {kind} question are obtained as `{show_term(_ren(c1, m1))[:110]}` for {said1} but as `{show_term(_ren(c2, m2))[:110]}` for {said2}, "
+                    f"and inside {e1.callee.qualname} the differing option changes the result (`{_first_difference(v1, v2)}`); the answer is judged per converted module, so {law}",
+                    where(ev.fi, ev.node), kind="flow",
+                )
+    return len(roles)
+
+
+def run_same_arguments(repo: Repo, res: Result) -> None:
+    """Duality: 'A should import B' and 'B should be imported by A' ask their questions with the same arguments - written as functions
+    of the named importers X and importees Y (import rule: subjects = X, objects = Y; its dual: objects = X, subjects = Y), the i-th
+    argument of the question is the same term.  Decomposition: 'should only [except]' asks the question it shares with 'should
+    [except]' with the same arguments.  Both are decided by `compare_question_arguments`, at the points where the answer is judged
+    per key (see `_judged_per_key`)."""
     seen: set = set()
     compared = 0
     site = None
     for verb, exc in LEGAL_POINTS:
         runs = {imp: run_scenario(repo, Scenario(verb, exc, imp)) for imp in (True, False)}
-        for kind in ("explicit", "other"):
-            qs = {imp: next((q for q in runs[imp].queries if (q.name == EXPLICIT_QUERY) == (kind == "explicit") and c01._sat(q.guard)), None) for imp in (True, False)}
-            if qs[True] is None or qs[False] is None:
+        for kind in ("explicit",):  # (the 'other' questions of a rule and of its mirror image are different questions)
+            if not (_judged_per_key(repo, verb, exc, True, kind) and _judged_per_key(repo, verb, exc, False, kind)):
                 continue
-            site = site or qs[True]
-            a_imp, a_bib = bound_args(repo, qs[True]), bound_args(repo, qs[False])
-            if len(a_imp) < 2 or len(a_bib) < 2:
-                continue
-            for i, role in ((0, "importers"), (1, "importees")):
-                t1, t2 = term_of(a_imp[i]), term_of(a_bib[i])
-                m1, m2 = {"S": "X", "O": "Y"}, {"O": "X", "S": "Y"}
-                compared += 1
-                pairs: list = []
-                if _ren(t1, m1) == _ren(t2, m2) or not _option_diffs(t1, t2, m1, m2, pairs) or not pairs:
-                    continue
-                for c1, c2 in pairs:
-                    key = (_ren(c1, m1), _ren(c2, m2))
-                    if key in seen:
-                        continue
-                    seen.add(key)
-                    e1 = next((e for e in runs[True].interp.events if e.kind == "call" and e.result is not None and e.callee is not None and term_of(e.result) == c1), None)
-                    e2 = next((e for e in runs[False].interp.events if e.kind == "call" and e.result is not None and e.callee is not None and term_of(e.result) == c2), None)
-                    if e1 is None or e2 is None or e1.callee.fq != e2.callee.fq:
-                        continue
-                    steps = _steps_to(t1, c1)
-                    steps2 = _steps_to(t2, c2)
-                    if steps != steps2:
-                        continue
-                    v1, n1 = option_effect(repo, e1, steps or [])
-                    v2, n2 = option_effect(repo, e2, steps or [])
-                    ev = e1 if len(c1) >= len(c2) else e2  # the call that carries the extra option
-                    cons = f"{ev.fi.relpath}::{ev.fi.qualname}::{e1.callee.name}(...) options [{role} @ {kind} question]"
-                    side1 = "rule subjects" if i == 0 else "rule objects"
-                    side2 = "rule objects" if i == 0 else "rule subjects"
-                    if v1 == v2:
-                        res.add("C12.DUAL", cons, True, f"`{show_term(c1)[:90]}` / `{show_term(c2)[:90]}`: the differing constant option does not change the value that reaches the question", where(ev.fi, ev.node), kind="flow")
-                    elif n1 or n2:
-                        res.undecide("C12.DUAL", cons, f"the {role} of the {kind} question are `{show_term(c1)[:100]}` for an import rule but `{show_term(c2)[:100]}` for its dual, and {e1.callee.qualname} is not fully modelled ({'; '.join((n1 or n2)[:2])})", where(ev.fi, ev.node))
-                    else:
-                        res.add(
-                            "C12.DUAL", cons, False,
-                            f"the {role} of the {kind} question are obtained as `{show_term(_ren(c1, m1))[:110]}` for 'X should import Y' ({side1}) but as `{show_term(_ren(c2, m2))[:110]}` for the dual 'Y should be imported by X' ({side2}), "
-                            f"and inside {e1.callee.qualname} the differing option changes the result (`{_first_difference(v1, v2)}`): a rule and its dual no longer ask the same question",
-                            where(ev.fi, ev.node), kind="flow",
-                        )
+            site = site or _question(runs[True], kind)
+            compared += compare_question_arguments(
+                repo, res, "C12.DUAL", kind, runs[True], runs[False], {"S": "X", "O": "Y"}, {"O": "X", "S": "Y"},
+                f"'X {verb.replace('_', ' ')} import{' except' if exc else ''} Y'", f"its dual 'Y {verb.replace('_', ' ')} be imported by{' except' if exc else ''} X'",
+                "a rule and its dual no longer ask the same question", seen,
+            )
     if site is not None:
         res.add("C12.DUAL", f"{site.fi.relpath}::{site.fi.qualname}::arguments as functions of (importers, importees)", True, f"{compared} argument pairs of a rule and its dual compared", where(site.fi, site.node), kind="flow", nontrivial=False)
+    # decomposition: the whole and the part that shares its per-key question
+    compared = 0
+    site = None
+    for exc in (False, True):
+        for imp in (True, False):
+            whole, part = run_scenario(repo, Scenario("should_only", exc, imp)), run_scenario(repo, Scenario("should", exc, imp))
+            for kind in ("explicit", "other"):
+                if not (_judged_per_key(repo, "should_only", exc, imp, kind) and _judged_per_key(repo, "should", exc, imp, kind)):
+                    continue
+                site = site or _question(whole, kind)
+                d = "import" if imp else "be imported by"
+                compared += compare_question_arguments(
+                    repo, res, "C12.DECOMP", kind, whole, part, {}, {},
+                    f"'should only {d}{' except' if exc else ''}'", f"its part 'should {d}{' except' if exc else ''}'",
+                    "'should only' no longer requires of the same modules what 'should' requires: it can pass although one of its parts fails", seen,
+                    # the keys of the 'other' answer are the rule subjects only (the other side is a set of excluded sub trees)
+                    roles=(0, 1) if kind == "explicit" else ((0,) if imp else (1,)),
+                )
+    if site is not None:
+        res.add("C12.DECOMP", f"{site.fi.relpath}::{site.fi.qualname}::arguments of the whole and of its part", True, f"{compared} argument pairs of 'should only' and 'should' compared", where(site.fi, site.node), kind="flow", nontrivial=False)
 
 
 def _first_difference(a: str, b: str) -> str:
@@ -284,10 +329,10 @@ def run(repo: Repo) -> Result:
         site = next((q for imp in (True, False) for q in run_scenario(repo, Scenario(verb, exc, imp)).queries if q.name == EXPLICIT_QUERY), None)
         prefix = f"{site.fi.relpath}::{site.fi.qualname}" if site is not None else f"{grv.relpath}::{grv.qualname}"
         ok = ("explicit" in a[True]) == ("explicit" in a[False])
-        res.add(
-            "C12.DUAL", f"{prefix}::explicit question independent of direction @ {point_name(verb, exc)}", ok,
+        c01._add(
+            res, "C12.DUAL", f"{prefix}::explicit question independent of direction @ {point_name(verb, exc)}", ok,
             "the explicit question is asked for a rule iff it is asked for its dual" if ok else f"'{point_name(verb, exc)}': import rules ask {sorted(a[True])}, be-imported-by rules ask {sorted(a[False])}: a rule and its dual no longer ask the same question",
-            where(site.fi, site.node) if site is not None else "", kind="decision-table",
+            where(site.fi, site.node) if site is not None else "", "decision-table", c01._asked_taint(*[run_scenario(repo, Scenario(verb, exc, imp)) for imp in (True, False)]),
         )
     for f in viol.ann_attrs:
         diff = []
@@ -329,6 +374,8 @@ def run(repo: Repo) -> Result:
         prefix = f"{h.relpath}::{h.qualname}" if h is not None else f"{grv.relpath}::{grv.qualname}"
         ok = (mode, gran) in (("absent", "per-key"), ("present", "per-pair"))
         if mode is None:
+            if und:
+                res.undecide("C12.NEG", f"{prefix}::{f} predicate", und, where(h, h.node) if h is not None else where(grv, grv.node))
             continue  # never active: reported by the bucket-set comparisons (and by C01.T2)
         c01._add(
             res, "C12.NEG", f"{prefix}::{f} predicate", ok,
@@ -369,7 +416,10 @@ def run(repo: Repo) -> Result:
             parts = c01._asked(run_scenario(repo, Scenario("should", exc, imp))) | c01._asked(run_scenario(repo, Scenario("should_not", not exc, imp)))
             if whole != parts:
                 break
-        res.add("C12.DECOMP", f"{grv.relpath}::RuleMatcher::questions of should_only{' except' if exc else ''}", whole == parts, f"questions asked: whole {sorted(whole)}, parts {sorted(parts)}", kind="decision-table")
+        c01._add(
+            res, "C12.DECOMP", f"{grv.relpath}::RuleMatcher::questions of should_only{' except' if exc else ''}", whole == parts, f"questions asked: whole {sorted(whole)}, parts {sorted(parts)}", "", "decision-table",
+            c01._asked_taint(*[run_scenario(repo, Scenario(v, e, i)) for v, e in (("should_only", exc), ("should", exc), ("should_not", not exc)) for i in (True, False)]),
+        )
     # ---- alias
     tmp5 = Result("C01")
     c01.run_t5(repo, tmp5)
